@@ -201,6 +201,17 @@ pub fn run_case(a: &[&str]) -> String {
             }
             format!("OK {}", hex(qr_svg(&content, o).as_bytes()))
         }
+        "file" if a[2] == "fsize" => {
+            // write-time fault AFTER a partial write: the write runs in a child process whose file-size limit is 1 KiB
+            // (SIGXFSZ ignored, so write(2) first writes 1024 bytes and then fails with EFBIG)
+            let exe = std::env::current_exe().unwrap();
+            let path = format!("{}/out_fsize_{}_{}.{}", a[3], a.get(4).unwrap_or(&"large"), std::process::id(), a[1]);
+            let cmd = format!("trap '' XFSZ; ulimit -f 2; exec {} filechild {} {} {}", exe.display(), a[1], path, a.get(4).unwrap_or(&"large"));
+            let out = std::process::Command::new("/bin/sh").arg("-c").arg(&cmd).output().expect("spawn sh");
+            let _ = std::fs::remove_file(&path);
+            let txt = String::from_utf8_lossy(&out.stdout).trim().to_string();
+            if txt.is_empty() { "CHILD-FAILED".to_string() } else { txt }
+        }
         "file" => {
             // file <svg|png> <fault-class> <workdir> [small|large]
             let payload = if a.get(4).map(|s| *s) == Some("small") { "A" } else { "https://example.com/verif" };
@@ -208,6 +219,7 @@ pub fn run_case(a: &[&str]) -> String {
             let dir = a[3];
             let path = match a[2] {
                 "ok" | "overwrite" => format!("{}/out_{}_{}_{}.{}", dir, a[2], a.get(4).unwrap_or(&"large"), std::process::id(), a[1]),
+                "direct" => dir.to_string(),
                 "missingdir" => format!("{}/no/such/dir/out.{}", dir, a[1]),
                 "isdir" => dir.to_string(),
                 "devfull" => "/dev/full".to_string(),
@@ -235,7 +247,7 @@ pub fn run_case(a: &[&str]) -> String {
             };
             match res {
                 Ok(()) => {
-                    let same = if a[2] == "ok" || a[2] == "overwrite" { std::fs::read(&path).map(|c| c == expect).unwrap_or(false) } else { false };
+                    let same = if a[2] == "ok" || a[2] == "overwrite" || a[2] == "direct" { std::fs::read(&path).map(|c| c == expect).unwrap_or(false) } else { false };
                     format!("RET_OK same={}", same as u8)
                 }
                 Err(_) => "RET_ERR".to_string(),
